@@ -1,6 +1,7 @@
 """C03 - WHERE keeps exactly the matching rows: order-preservation and comparison tables (narrow claim)."""
 from rules import misc as M
 from rules import tables as T
+from rules import filtering as FL
 
 
 def run(ctx):
@@ -8,11 +9,15 @@ def run(ctx):
     ctx.run(M.tbl2_codec_properties)
     ctx.run(M.tbl3_comparison_registry)
     ctx.run(T.tbl17_constant_translation_is_inverse)
+    ctx.run(FL.flw23_filter_exactly_once)
     return ctx.finish(
         'Static rules: the string dictionary is sorted before indices are assigned (range '
         'predicates run on dictionary indices), a codec op is declared order-/summation-preserving '
         'only if it is, and the comparison rows of the function registry are mutually consistent '
-        '(GT/GTE = LT/LTE with swapped operands, mixed rows cast the integer side). Necessary '
-        'conditions only; the result of a comparison, constant translation into the encoding '
-        'domain, NULL semantics and filter application are NOT decided.',
+        '(GT/GTE = LT/LTE with swapped operands, mixed rows cast the integer side); a WHERE constant is '
+        'translated by the inverse of the decode op applied once; the compiled filter is applied exactly '
+        'once to everything a partition plan reads (two-point typestate Unfiltered/Filtered over a '
+        'flow-sensitive MIR slice: no double filter, no partition-length source that bypasses it, every '
+        'expression compiled with the WHERE filter). Necessary conditions only; the result of a '
+        'comparison and NULL semantics of the operators are NOT decided.',
         trusted_base=['rustc MIR printer of the pinned toolchain', 'mirlib text parser', 'syn'])
